@@ -257,3 +257,8 @@ Definition exhaustion_methods (tbl : list (string * option (list string))) : lis
          (List.concat (List.map (fun x => match snd x with Some l => l | None => [] end) tbl)).
 
 Definition audited_exhaustion_methods : list string := ["next"; "next_back"]%string.
+
+(* ------------------------------------------------------------------ added in round 5 *)
+(* what the end of a wrapped iterator (iter_none_step) does to the logic of the bar *)
+Definition l_iter_none (l : logic) : logic :=
+  if l_finished l then l else l_finish (l_on_finish l) l.
